@@ -7,6 +7,7 @@ import (
 	"fmt"
 	"math"
 	"reflect"
+	"strings"
 
 	"github.com/ovn-org/libovsdb/model"
 	"github.com/ovn-org/libovsdb/ovsdb"
@@ -43,125 +44,129 @@ func runC09(r *ev.Run) {
 	}
 	r.SetDeadline(20 * 60 * 1e9)
 	r.Set("rule", "case = (column type, value) converted model -> NewRow -> JSON -> Row -> GetRowData on a fresh model, in three row-building modes (default, explicit field list, all columns); plus pre-filled sentinel models for absent columns, extreme integers and reals, and (column type, wrong Go type) pairs that must be rejected; non-trivial = non-default value")
-	e := newTypEnv()
 	uuid := tU[0]
-	for _, cn := range e.t.ColNames() {
-		c := e.t.Cols[cn]
-		shape := colShape(c)
-		uni := orderedUniverse(c, nset, nkeys)
-		// extreme numbers
-		if c.KeyT == "integer" && !c.IsMap {
-			for _, n := range []int64{1 << 53, -(1 << 53), 1<<53 + 1, -(1<<53 + 1), math.MaxInt64, math.MinInt64, 1<<31 + 7} {
-				uni = append(uni, ov{Set: []rm.Atom{rm.I(n)}})
+	// the all-types table, then a table with a map column for every (key type, value type) pair and a set of booleans
+	envs := []*typEnv{newTypEnv(), newMapZooEnv()}
+	for _, e := range envs {
+		for _, cn := range e.t.ColNames() {
+			c := e.t.Cols[cn]
+			shape := colShape(c)
+			uni := orderedUniverse(c, nset, nkeys)
+			// extreme numbers
+			if c.KeyT == "integer" && !c.IsMap {
+				for _, n := range []int64{1 << 53, -(1 << 53), 1<<53 + 1, -(1<<53 + 1), math.MaxInt64, math.MinInt64, 1<<31 + 7} {
+					uni = append(uni, ov{Set: []rm.Atom{rm.I(n)}})
+				}
 			}
-		}
-		if c.KeyT == "real" && !c.IsMap {
-			for _, f := range []float64{math.Copysign(0, -1), 1e308, 5e-324, -1e-300, 1.0 / 3, 123456789.125} {
-				uni = append(uni, ov{Set: []rm.Atom{{K: 'r', R: f}}})
+			if c.KeyT == "real" && !c.IsMap {
+				for _, f := range []float64{math.Copysign(0, -1), 1e308, 5e-324, -1e-300, 1.0 / 3, 123456789.125} {
+					uni = append(uni, ov{Set: []rm.Atom{{K: 'r', R: f}}})
+				}
 			}
-		}
-		for vi, v := range uni {
-			for _, mode := range []string{"default", "explicit-field"} {
-				r.Add("evaluations", 1)
-				cse := map[string]interface{}{"column": cn, "type": shape, "value": v.String(), "mode": mode}
-				func() {
-					defer func() {
-						if p := recover(); p != nil {
-							r.Violation("c09.panic."+shape, fmt.Sprintf("%s (%s) value %s: panic %v", cn, shape, v, p), cse)
+			for vi, v := range uni {
+				for _, mode := range []string{"default", "explicit-field"} {
+					r.Add("evaluations", 1)
+					cse := map[string]interface{}{"column": cn, "type": shape, "value": v.String(), "mode": mode}
+					func() {
+						defer func() {
+							if p := recover(); p != nil {
+								r.Violation("c09.panic."+shape, fmt.Sprintf("%s (%s) value %s: panic %v", cn, shape, v, p), cse)
+							}
+						}()
+						m := e.dbs.NewModel("T")
+						schemas.Set(m, "_uuid", uuid)
+						native := v.native(c, e.fieldType(cn))
+						schemas.Set(m, cn, native)
+						want := sysFromNative(c, native)
+						snap := snapshot(m)
+						info, err := e.dbm.NewModelInfo(m)
+						if err != nil {
+							panic(err)
 						}
-					}()
-					m := e.dbs.NewModel("T")
-					schemas.Set(m, "_uuid", uuid)
-					native := v.native(c, e.fieldType(cn))
-					schemas.Set(m, cn, native)
-					want := sysFromNative(c, native)
-					snap := snapshot(m)
-					info, err := e.dbm.NewModelInfo(m)
-					if err != nil {
-						panic(err)
-					}
-					var row ovsdb.Row
-					if mode == "default" {
-						row, err = e.dbm.Mapper.NewRow(info)
-					} else {
-						fp := reflect.ValueOf(m).Elem().FieldByName(schemas.FieldName(cn)).Addr().Interface()
-						row, err = e.dbm.Mapper.NewRow(info, fp)
-					}
-					if err != nil {
-						r.Violation("c09.newrow-error."+shape, fmt.Sprintf("%s (%s) value %s: NewRow: %v", cn, shape, v, err), cse)
-						return
-					}
-					if snapshot(m) != snap {
-						r.Violation("c09.newrow-mutates-model."+shape, fmt.Sprintf("%s (%s) value %s: NewRow changed the model", cn, shape, v), cse)
-					}
-					b, err := json.Marshal(row)
-					if err != nil {
-						r.Violation("c09.row-encode-error."+shape, fmt.Sprintf("%s (%s) value %s: %v", cn, shape, v, err), cse)
-						return
-					}
-					cse["wire"] = string(b)
-					var wire ovsdb.Row
-					if err := json.Unmarshal(b, &wire); err != nil {
-						r.Violation("c09.row-decode-error."+shape, fmt.Sprintf("%s (%s) value %s: wire %s: %v", cn, shape, v, b, err), cse)
-						return
-					}
-					back, err := model.CreateModel(e.dbm, "T", &wire, uuid)
-					if err != nil {
-						r.Violation("c09.getrowdata-error."+shape, fmt.Sprintf("%s (%s) value %s: wire %s: %v", cn, shape, v, b, err), cse)
-						return
-					}
-					got := sysFromNative(c, schemas.Get(back, cn))
-					if got != want {
-						sig := "c09.lossy." + shape
-						if c.KeyT == "integer" && len(v.Set) == 1 && (v.Set[0].I > 1<<53 || v.Set[0].I < -(1<<53)) {
-							sig = "c09.lossy.integer-beyond-2^53." + shapeClass(c)
+						var row ovsdb.Row
+						if mode == "default" {
+							row, err = e.dbm.Mapper.NewRow(info)
+						} else {
+							fp := reflect.ValueOf(m).Elem().FieldByName(schemas.FieldName(cn)).Addr().Interface()
+							row, err = e.dbm.Mapper.NewRow(info, fp)
 						}
-						r.Violation(sig, fmt.Sprintf("%s (%s): value %s went on the wire as %s and came back as %s (%s vs %s)", cn, shape, v, b, canonNativeStr(schemas.Get(back, cn)), want, got), cse)
-					}
-					// every other mapped field keeps its (default) value
-					for _, oc := range e.t.ColNames() {
-						if oc != cn && canonNativeStr(schemas.Get(back, oc)) != canonNativeStr(schemas.Get(e.dbs.NewModel("T"), oc)) {
-							r.Violation("c09.other-column."+shape, fmt.Sprintf("%s: round trip changed column %s", cn, oc), cse)
-						}
-					}
-					if !v.canon().Equal(c.Default()) {
-						r.Distinct("nontrivial", fmt.Sprintf("%s/%d", cn, vi))
-					}
-					if vi == 2 && mode == "default" {
-						r.Sample(cse)
-					}
-					// columns absent from a row leave the field untouched
-					if mode == "default" {
-						sent := e.dbs.NewModel("T")
-						for _, oc := range e.t.ColNames() {
-							u2 := orderedUniverse(e.t.Cols[oc], 2, 1)
-							schemas.Set(sent, oc, u2[len(u2)-1].native(e.t.Cols[oc], e.fieldType(oc)))
-						}
-						before := map[string]string{}
-						for _, oc := range e.t.ColNames() {
-							before[oc] = sysFromNative(e.t.Cols[oc], schemas.Get(sent, oc))
-						}
-						sinfo, _ := e.dbm.NewModelInfo(sent)
-						only := ovsdb.Row{}
-						if x, ok := wire[cn]; ok {
-							only[cn] = x
-						}
-						if err := e.dbm.Mapper.GetRowData(&only, sinfo); err != nil {
-							r.Violation("c09.getrowdata-error."+shape, fmt.Sprintf("%s: %v", cn, err), cse)
+						if err != nil {
+							r.Violation("c09.newrow-error."+shape, fmt.Sprintf("%s (%s) value %s: NewRow: %v", cn, shape, v, err), cse)
 							return
 						}
+						if snapshot(m) != snap {
+							r.Violation("c09.newrow-mutates-model."+shape, fmt.Sprintf("%s (%s) value %s: NewRow changed the model", cn, shape, v), cse)
+						}
+						b, err := json.Marshal(row)
+						if err != nil {
+							r.Violation("c09.row-encode-error."+shape, fmt.Sprintf("%s (%s) value %s: %v", cn, shape, v, err), cse)
+							return
+						}
+						cse["wire"] = string(b)
+						var wire ovsdb.Row
+						if err := json.Unmarshal(b, &wire); err != nil {
+							r.Violation("c09.row-decode-error."+shape, fmt.Sprintf("%s (%s) value %s: wire %s: %v", cn, shape, v, b, err), cse)
+							return
+						}
+						back, err := model.CreateModel(e.dbm, "T", &wire, uuid)
+						if err != nil {
+							r.Violation("c09.getrowdata-error."+shape, fmt.Sprintf("%s (%s) value %s: wire %s: %v", cn, shape, v, b, err), cse)
+							return
+						}
+						got := sysFromNative(c, schemas.Get(back, cn))
+						if got != want {
+							sig := "c09.lossy." + shape
+							if c.KeyT == "integer" && len(v.Set) == 1 && (v.Set[0].I > 1<<53 || v.Set[0].I < -(1<<53)) {
+								sig = "c09.lossy.integer-beyond-2^53." + shapeClass(c)
+							}
+							r.Violation(sig, fmt.Sprintf("%s (%s): value %s went on the wire as %s and came back as %s (%s vs %s)", cn, shape, v, b, canonNativeStr(schemas.Get(back, cn)), want, got), cse)
+						}
+						// every other mapped field keeps its (default) value
 						for _, oc := range e.t.ColNames() {
-							_, present := only[oc]
-							if !present && sysFromNative(e.t.Cols[oc], schemas.Get(sent, oc)) != before[oc] {
-								r.Violation("c09.absent-column-touched."+colShape(e.t.Cols[oc]), fmt.Sprintf("row with only %v changed field %s from %s to %s", only, oc, before[oc], sysFromNative(e.t.Cols[oc], schemas.Get(sent, oc))), cse)
+							if oc != cn && canonNativeStr(schemas.Get(back, oc)) != canonNativeStr(schemas.Get(e.dbs.NewModel("T"), oc)) {
+								r.Violation("c09.other-column."+shape, fmt.Sprintf("%s: round trip changed column %s", cn, oc), cse)
 							}
 						}
-						r.Add("sentinel_checks", 1)
-					}
-				}()
+						if !v.canon().Equal(c.Default()) {
+							r.Distinct("nontrivial", fmt.Sprintf("%s/%d", cn, vi))
+						}
+						if vi == 2 && mode == "default" {
+							r.Sample(cse)
+						}
+						// columns absent from a row leave the field untouched
+						if mode == "default" {
+							sent := e.dbs.NewModel("T")
+							for _, oc := range e.t.ColNames() {
+								u2 := orderedUniverse(e.t.Cols[oc], 2, 1)
+								schemas.Set(sent, oc, u2[len(u2)-1].native(e.t.Cols[oc], e.fieldType(oc)))
+							}
+							before := map[string]string{}
+							for _, oc := range e.t.ColNames() {
+								before[oc] = sysFromNative(e.t.Cols[oc], schemas.Get(sent, oc))
+							}
+							sinfo, _ := e.dbm.NewModelInfo(sent)
+							only := ovsdb.Row{}
+							if x, ok := wire[cn]; ok {
+								only[cn] = x
+							}
+							if err := e.dbm.Mapper.GetRowData(&only, sinfo); err != nil {
+								r.Violation("c09.getrowdata-error."+shape, fmt.Sprintf("%s: %v", cn, err), cse)
+								return
+							}
+							for _, oc := range e.t.ColNames() {
+								_, present := only[oc]
+								if !present && sysFromNative(e.t.Cols[oc], schemas.Get(sent, oc)) != before[oc] {
+									r.Violation("c09.absent-column-touched."+colShape(e.t.Cols[oc]), fmt.Sprintf("row with only %v changed field %s from %s to %s", only, oc, before[oc], sysFromNative(e.t.Cols[oc], schemas.Get(sent, oc))), cse)
+								}
+							}
+							r.Add("sentinel_checks", 1)
+						}
+					}()
+				}
 			}
 		}
 	}
+	e := envs[0]
 	// a Go type that does not match the column type is rejected, never converted
 	cands := []reflect.Type{reflect.TypeOf(0), reflect.TypeOf(""), reflect.TypeOf(0.0), reflect.TypeOf(true), reflect.TypeOf(int64(0)), reflect.TypeOf(float32(0)),
 		reflect.TypeOf([]string{}), reflect.TypeOf([]int{}), reflect.TypeOf([]float64{}), reflect.TypeOf([]bool{}), reflect.TypeOf([1]string{}),
@@ -211,4 +216,18 @@ func runC09(r *ev.Run) {
 		}
 	}
 	r.Set("distinct_nontrivial", r.DistinctCount("nontrivial"))
+}
+
+// newMapZooEnv: one map column per (key type, value type) pair of the five atomic types, and a set of booleans.
+func newMapZooEnv() *typEnv {
+	ts := []string{"integer", "real", "boolean", "string", "uuid"}
+	cols := []string{`"sbo":{"type":{"key":{"type":"boolean"},"min":0,"max":"unlimited"}}`}
+	for _, k := range ts {
+		for _, v := range ts {
+			cols = append(cols, fmt.Sprintf(`"m%c%c":{"type":{"key":{"type":"%s"},"value":{"type":"%s"},"min":0,"max":"unlimited"}}`, k[0], v[0], k, v))
+		}
+	}
+	dbs := schemas.MustBuild(`{"name":"ZOO","version":"1.0.0","tables":{"T":{"columns":{`+strings.Join(cols, ",")+`}}}}`, nil)
+	ref := rm.FromOvsdb(dbs.Schema)
+	return &typEnv{dbs: dbs, dbm: dbs.DBModel(), ref: ref, t: ref.Tables["T"]}
 }
